@@ -21,3 +21,6 @@ check.wrap_generate()
 
 import gen_hashpad
 gen_hashpad.main([os.path.join(b, "src"), vlib.LEAN])
+
+import gen_submit
+gen_submit.main([os.path.join(b, "src"), vlib.LEAN])
